@@ -45,6 +45,9 @@ type c18Cfg struct {
 	// Leftover: the settings of the OTHER mode are present too (validation accepts that, the mode in use ignores them)
 	SpikeUnset bool `json:"spike_limit_unset,omitempty"`
 	Leftover   int  `json:"leftover_settings_of_the_other_mode,omitempty"`
+	// SlowReads: some memory readings take a while (the checker's goroutine parks inside the reading); start, consume
+	// and shutdown calls - also with a context that is already done - arrive while a check is in progress
+	SlowReads bool `json:"slow_readings,omitempty"`
 }
 
 type memScript struct {
@@ -55,10 +58,37 @@ type memScript struct {
 	takenAt  []time.Time
 	lastAt   []time.Time
 	total    int
+	// slow readings: the next reading parks its goroutine (the limiter's checker) before it is handed a value, until
+	// the scheduler releases it; what the rest of the system does meanwhile is the scheduler's choice
+	parkNext bool
+	parked   bool
+	gate     chan struct{}
+}
+
+func (m *memScript) isParked() bool {
+	m.mu.Lock()
+	defer m.mu.Unlock()
+	return m.parked
+}
+
+func (m *memScript) release() {
+	m.mu.Lock()
+	was := m.parked
+	m.parked = false
+	m.mu.Unlock()
+	if was {
+		m.gate <- struct{}{}
+	}
 }
 
 func (m *memScript) read(ms *runtime.MemStats) {
 	m.mu.Lock()
+	if m.parkNext {
+		m.parkNext, m.parked = false, true
+		m.mu.Unlock()
+		<-m.gate
+		m.mu.Lock()
+	}
 	defer m.mu.Unlock()
 	v := m.fallback
 	if len(m.queue) > 0 {
@@ -133,10 +163,11 @@ func runC18(r *simkit.Run) {
 		cfg.SpikeMiB = 0
 		pctSpike = 0
 	}
+	cfg.SlowReads = tp.Chance(1, 4)
 	r.Sample = cfg
 	r.Logf("config %+v", cfg)
 	begin := time.Now()
-	script := &memScript{fallback: 0}
+	script := &memScript{fallback: 0, gate: make(chan struct{})}
 	oldRead, oldGet := memorylimiter.ReadMemStatsFn, memorylimiter.GetMemoryFn
 	memorylimiter.ReadMemStatsFn = script.read
 	memorylimiter.GetMemoryFn = func() (uint64, error) { return cfg.TotalMiB * mib, nil }
@@ -306,11 +337,37 @@ func runC18(r *simkit.Run) {
 		}
 	}
 
+	// a Shutdown that runs as a task of its own (only while a reading is parked: the last user's Shutdown waits for
+	// the checker, which is inside that reading)
+	type shutTask struct {
+		sh   *sharer
+		i    int
+		done bool
+		err  error
+	}
+	var shutMu sync.Mutex
+	var pending *shutTask
+	shutdownCtx := func() context.Context {
+		if tp.Chance(1, 3) {
+			r.Count("fault.shutdown_with_done_context")
+			c, cancel := context.WithCancel(context.Background())
+			cancel()
+			return c
+		}
+		return context.Background()
+	}
 	for step := 0; step < cfg.Steps && !r.Failed(); step++ {
 		var ch []simkit.Choice
+		parked := script.isParked()
+		if parked {
+			ch = append(ch, simkit.Choice{Name: "release-reading", W: 4, Fire: func() { script.release() }})
+		}
 		for i, sh := range sharers {
 			i, sh := i, sh
-			if !sh.started {
+			if pending != nil {
+				// Start and Shutdown of the other sharers queue behind the limiter's reference-count lock, which the pending
+				// Shutdown holds while it waits for the checker: only consume calls and the release are delivered
+			} else if !sh.started {
 				ch = append(ch, simkit.Choice{Name: fmt.Sprintf("start:%d", i), W: 3, Fire: func() {
 					sctx, started := simkit.StartContext(tp)
 					if err := sh.comp.Start(sctx, componenttest.NewNopHost()); err != nil {
@@ -322,7 +379,20 @@ func runC18(r *simkit.Run) {
 				}})
 			} else if !sh.stopped && (running > 1 || step > cfg.Steps/2) {
 				ch = append(ch, simkit.Choice{Name: fmt.Sprintf("shutdown:%d", i), W: 1, Fire: func() {
-					if err := sh.comp.Shutdown(context.Background()); err != nil {
+					ctx := shutdownCtx()
+					if parked {
+						r.Count("probe.shutdown_while_a_check_is_in_progress")
+						t := &shutTask{sh: sh, i: i}
+						pending = t
+						go func() {
+							err := sh.comp.Shutdown(ctx)
+							shutMu.Lock()
+							t.done, t.err = true, err
+							shutMu.Unlock()
+						}()
+						return
+					}
+					if err := sh.comp.Shutdown(ctx); err != nil {
 						r.Failf("lifecycle", "shutdown-error", "shutdown of sharer %d: %v", i, err)
 					}
 					sh.stopped = true
@@ -388,24 +458,52 @@ func runC18(r *simkit.Run) {
 			}
 		}
 		// time: a full check interval with a tape-chosen reading (and after-GC reading), or a fraction of it
-		ch = append(ch, simkit.Choice{Name: "advance:check_interval", W: 5, Fire: func() {
-			first := classes[tp.Draw(len(classes))]
-			after := classes[tp.Draw(len(classes))]
-			if tp.Chance(1, 2) {
-				after = first // GC had no effect
-			}
-			script.set(first, after)
-			r.Logf("  next reading %d MiB, after a GC %d MiB (soft %d, hard %d)", first/mib, after/mib, soft/mib, limit/mib)
-			time.Sleep(interval)
-		}})
-		ch = append(ch, simkit.Choice{Name: "advance:fraction", W: 1, Fire: func() {
-			first := classes[tp.Draw(len(classes))]
-			script.set(first, first)
-			time.Sleep(interval / 3)
-		}})
+		// (not while a reading is parked: the checks of a run stay one per interval, which is what the model folds)
+		if !parked {
+			ch = append(ch, simkit.Choice{Name: "advance:check_interval", W: 5, Fire: func() {
+				if cfg.SlowReads && ext == nil && running > 0 && tp.Chance(1, 2) {
+					script.mu.Lock()
+					script.parkNext = true
+					script.mu.Unlock()
+					r.Count("fault.slow_memory_reading")
+				}
+				first := classes[tp.Draw(len(classes))]
+				after := classes[tp.Draw(len(classes))]
+				if tp.Chance(1, 2) {
+					after = first // GC had no effect
+				}
+				script.set(first, after)
+				r.Logf("  next reading %d MiB, after a GC %d MiB (soft %d, hard %d)", first/mib, after/mib, soft/mib, limit/mib)
+				time.Sleep(interval)
+			}})
+			ch = append(ch, simkit.Choice{Name: "advance:fraction", W: 1, Fire: func() {
+				first := classes[tp.Draw(len(classes))]
+				script.set(first, first)
+				time.Sleep(interval / 3)
+			}})
+		}
 		wasRunning := running
 		before := time.Now()
 		ev := r.Pick(ch)
+		if pending != nil {
+			shutMu.Lock()
+			done, err := pending.done, pending.err
+			shutMu.Unlock()
+			if done {
+				if err != nil {
+					r.Failf("lifecycle", "shutdown-error", "shutdown of sharer %d: %v", pending.i, err)
+				}
+				pending.sh.stopped = true
+				running--
+				pending = nil
+			}
+		}
+		if !script.isParked() {
+			// a slow reading that was asked for but not taken (no checker running) is forgotten
+			script.mu.Lock()
+			script.parkNext = false
+			script.mu.Unlock()
+		}
 		taken := script.takenNow()
 		if wasRunning == 0 && running == 0 && len(taken) > 0 && anyStopped(func() bool {
 			for _, sh := range sharers {
@@ -417,7 +515,7 @@ func runC18(r *simkit.Run) {
 		}) {
 			r.Failf("lifecycle", "checker-runs-after-last-shutdown", "%d memory readings were taken after the last user of the limiter had shut down", len(taken))
 		}
-		if ev == "advance:check_interval" && wasRunning > 0 && running > 0 && len(taken) == 0 {
+		if ev == "advance:check_interval" && wasRunning > 0 && running > 0 && len(taken) == 0 && !script.isParked() {
 			r.Failf("lifecycle", "checker-not-running", "a full check interval passed with %d users started but no memory reading was taken", running)
 		}
 		_ = before
@@ -439,7 +537,17 @@ func runC18(r *simkit.Run) {
 		if !anyStoppedNow {
 			allDone = false
 		}
+		if pending != nil {
+			allDone = false
+		}
 		if allDone && len(sharers) > 0 {
+			if script.isParked() {
+				// every user has shut down: the checker must have stopped, so a reading still in progress is one too many
+				r.Fire("release-reading", func() { script.release() })
+				if t := script.takenNow(); len(t) > 0 {
+					r.Failf("lifecycle", "checker-runs-after-last-shutdown", "the last user's Shutdown returned while a check was in progress; the check went on and took %d memory readings afterwards", len(t))
+				}
+			}
 			// one more interval: nothing may tick
 			script.set(limit*2, limit*2)
 			r.Fire("advance:after-last-shutdown", func() { time.Sleep(2 * interval) })
@@ -459,7 +567,15 @@ func runC18(r *simkit.Run) {
 		}
 	}
 	// clean up so that the bubble can end
+	if script.isParked() {
+		script.release()
+		r.Settle()
+	}
+	r.Settle()
 	for _, sh := range sharers {
+		if pending != nil && pending.sh == sh {
+			continue
+		}
 		if sh.started && !sh.stopped {
 			_ = sh.comp.Shutdown(context.Background())
 		}
@@ -477,5 +593,5 @@ var HarnessC18 = simkit.Harness{
 	Prop: "C18", Name: "svc/c18", Run: runC18, StepTimeout: 20e9,
 	Real: []string{"internal/memorylimiter.MemoryLimiter (ticker goroutine, CheckMemLimits, reference-counted Start/Shutdown, real runtime.GC)", "memorylimiterprocessor factory (one limiter shared by processors of several signals) on top of processorhelper", "memorylimiterextension"},
 	Stub: []string{"memory readings (ReadMemStatsFn / GetMemoryFn package variables) scripted per check: first reading and reading after a forced GC", "downstream sinks (ok / error)"},
-	Rule: "one run = one tape-drawn configuration accepted by Validate() (check interval, soft/hard minimum GC intervals, fixed or percentage limits, spike limit), 1-3 processors sharing one limiter (or the extension; after the last one has shut down optionally a second generation of processors built by the same factory from a new, equal configuration object), and a schedule of start / shutdown of individual sharers, virtual-clock advances by the check interval or a third of it with a tape-chosen reading class (below soft, soft-1, soft, soft+1, between, hard-1, hard, hard+1, far above) and after-GC reading, and consume calls with accepting or failing downstream; a forced GC is observed as the second reading consumed by one check; distinct = distinct event-log hash; non-trivial = at least one check ran",
+	Rule: "one run = one tape-drawn configuration accepted by Validate() (check interval, soft/hard minimum GC intervals, fixed or percentage limits, spike limit), 1-3 processors sharing one limiter (or the extension; after the last one has shut down optionally a second generation of processors built by the same factory from a new, equal configuration object), and a schedule of start / shutdown of individual sharers, virtual-clock advances by the check interval or a third of it with a tape-chosen reading class (below soft, soft-1, soft, soft+1, between, hard-1, hard, hard+1, far above) and after-GC reading, and consume calls with accepting or failing downstream; in 1 run in 4 some memory readings are slow (the checker's goroutine parks inside the reading until a release event; starts, consume calls and Shutdowns - 1 in 3 with a context that is already done, the last user's as a task of its own - arrive while that check is in progress; once the last user's Shutdown has returned no reading may be taken or finished); a forced GC is observed as the second reading consumed by one check; distinct = distinct event-log hash; non-trivial = at least one check ran",
 }
